@@ -1,6 +1,7 @@
 package harness
 
 import (
+	"context"
 	"math"
 	"time"
 
@@ -18,7 +19,7 @@ func init() {
 			"oracle: a reference window model written from the statement predicts every call of the delegate (no missing, no extra call) and its exact arguments (min / mean rtt, max in-flight, drop flag iff some completion of that window was a drop); " +
 			"non-trivial = at least two windows were closed and one of them contained a drop that was not its last completion; distinct = distinct choice tapes",
 		Real:       []string{"limiter.DefaultLimiter", "limiter.DefaultListener", "limit.WindowedLimit", "measurements.ImmutableSampleWindow", "strategy.SimpleStrategy"},
-		Stubs:      []string{"recording core.Limit delegate", "logger"},
+		Stubs:      []string{"recording core.Limit delegate", "logger", "caller-written strategy wrapper whose tokens report their own count (25% of default-limiter runs)"},
 		FaultKinds: []string{"F-latency", "F-drop", "F-outcome", "F-idle", "F-clock"},
 		Assumptions: []string{"single driving goroutine on the synctest fake clock: measured durations equal the virtual sleeps exactly",
 			"readiness rules: default limiter — more than windowSize successes in the window; windowed limit — the rule pinned by the existing suite (closing sample's in-flight exceeds windowSize)"},
@@ -55,7 +56,14 @@ func runC09Default(r *Run) {
 	maxW := minW * time.Duration(1+t.Intn(3, "max-mult"))
 	thr := []time.Duration{0, 100 * time.Microsecond, ms}[t.Intn(3, "threshold")]
 	rec := &recLimit{est: 1000}
-	dl, err := limiter.NewDefaultLimiter(rec, minW.Nanoseconds(), maxW.Nanoseconds(), thr.Nanoseconds(), ws, strategy.NewSimpleStrategy(1000), nopLogger{}, core.EmptyMetricRegistryInstance)
+	var strat core.Strategy = strategy.NewSimpleStrategy(1000)
+	if t.Chance(25, "strategy-own-token-count") {
+		// a caller-written strategy whose tokens report a count of its own (say, of one tenant): the window's
+		// in-flight is the limiter's own count of outstanding requests, whatever the strategy's tokens say
+		strat = ownCountStrategy{strat}
+		r.Probe("strategy_tokens_report_other_count")
+	}
+	dl, err := limiter.NewDefaultLimiter(rec, minW.Nanoseconds(), maxW.Nanoseconds(), thr.Nanoseconds(), ws, strat, nopLogger{}, core.EmptyMetricRegistryInstance)
 	if err != nil {
 		r.Fail("harness", "build", "%v", err)
 		return
@@ -333,4 +341,20 @@ func runC09Windowed(r *Run) {
 	if windows > 0 {
 		r.Probe("window_closed")
 	}
+}
+
+// ownCountStrategy: a strategy as a user of the library may write it; admission is the wrapped strategy's,
+// the tokens report a number of their own.
+type ownCountStrategy struct{ core.Strategy }
+
+type ownCountToken struct{ core.StrategyToken }
+
+func (k ownCountToken) InFlightCount() int { return 424242 }
+
+func (s ownCountStrategy) TryAcquire(ctx context.Context) (core.StrategyToken, bool) {
+	tk, ok := s.Strategy.TryAcquire(ctx)
+	if tk == nil {
+		return tk, ok
+	}
+	return ownCountToken{tk}, ok
 }
